@@ -2562,7 +2562,12 @@ int32 parseCertificateRequest(ssl_t *ssl,
         while (len >= 2)
         {
             uint32_t val = HASH_SIG_MASK(c[0], c[1]);
-            keySelect->peerSigAlgs[nSigAlg++] = val;
+            /* The list length comes from the peer: keep only what fits
+               (the mask below still reflects every entry). */
+            if (nSigAlg < TLS_MAX_SIGNATURE_ALGORITHMS)
+            {
+                keySelect->peerSigAlgs[nSigAlg++] = val;
+            }
             ssl->peerSigAlg |= val;
             c += 2;
             len -= 2;
